@@ -427,10 +427,21 @@ func runC05(c *Ctx) {
 	} {
 		fn := p.Fn("sio", a.fn)
 		cs := CallsTo(Calls(fn), a.callee)
-		okOne := len(cs) == 1 && !inLoop(cs[0].Instr.Block()) && !cs[0].IsGo()
-		if okOne {
-			mk, isMake := cs[0].Arg(0).(*ssa.MakeSlice)
-			okOne = isMake && Term(mk.Len) == a.lenOf
+		okOne := len(cs) >= 1
+		for i, x := range cs {
+			if inLoop(x.Instr.Block()) || x.IsGo() {
+				okOne = false
+			}
+			if w, _ := wholePacketArg(x.Arg(0), a.lenOf); !w {
+				okOne = false
+			}
+			for j, y := range cs {
+				if i != j {
+					if r, _ := CanReachAvoiding(fn, x.Instr, func(in ssa.Instruction) bool { return in == y.Instr }, nil); r {
+						okOne = false // two enqueue calls on one path
+					}
+				}
+			}
 		}
 		c.Ob("C05-D9", "sio."+a.fn+"/one-enqueue-for-all-frames", fn.Pos(), okOne, "the frames of one packet are not handed to the connection's queue in a single call with the slice of all frames: a packet of another namespace can land between them")
 	}
